@@ -5,7 +5,7 @@ From Coq Require Import NArith List Bool.
 Import ListNotations.
 From Coq Require Import ZArith.
 From CXV Require Import Gen.TokTy Gen.ParserTables Parse.Balanced Gen.Blocks Parse.BlocksSM.
-From CXV Require Import Base.Regex Base.Cost Gen.LexRules Lex.PlyLoop Gen.StreamTables Stream.TokBuf.
+From CXV Require Import Base.Regex Base.Cost Gen.LexRules Lex.PlyLoop Gen.StreamTables Stream.TokBuf Fmt.TokFmt.
 Open Scope N_scope.
 
 Definition nlen {A} (l : list A) : N := N.of_nat (length l).
@@ -186,8 +186,22 @@ Definition run_lexcost (args : list N) : list N :=
   | [] => [99]
   end.
 
+(* tokfmt: args = n, then n times (type, len-prefixed text) -> formatted text *)
+Fixpoint dec_vtoks (k : nat) (l : list N) : list vtok :=
+  match k with
+  | O => []
+  | S k' => match l with
+            | ty :: r => let '(txt, r') := split_n r in (ty, txt) :: dec_vtoks k' r'
+            | [] => []
+            end
+  end.
+
+Definition run_tokfmt (args : list N) : list N :=
+  match args with n :: r => tokfmt (dec_vtoks (N.to_nat n) r) | [] => [99] end.
+
 Definition run_case (cmd : N) (args : list N) : list N :=
   match cmd, args with
+  | 40, _ => run_tokfmt args
   | 21, _ => run_lexcost args
   | 30, _ => run_stream args
   | 20, _ => run_lex args
